@@ -298,7 +298,7 @@ func runSolverCtx(parent context.Context, backend string, q *Query, timeout time
 		return SolveResult{Result: "cancelled", Backend: backend}
 	}
 	atomic.AddInt64(&queryCount, 1)
-	f, err := os.CreateTemp("", "snesvc*.smt2")
+	f, err := os.CreateTemp(smtTmpDir(), "snesvc*.smt2")
 	if err != nil {
 		return SolveResult{Result: "error", Backend: backend, Output: err.Error()}
 	}
@@ -494,4 +494,27 @@ func solveOrder(q *Query, all bool, tmo time.Duration, order []string) SolveResu
 		lastR.Result = "unknown"
 	}
 	return lastR
+}
+
+// Query files live in one per-process directory that main removes before it exits: a solver race that is still in
+// flight when the verdict is printed would otherwise leave its file behind (deferred removals do not run on os.Exit).
+var (
+	smtTmpOnce sync.Once
+	smtTmp     string
+)
+
+func smtTmpDir() string {
+	smtTmpOnce.Do(func() {
+		d, err := os.MkdirTemp("", "snesvc-q-*")
+		if err == nil {
+			smtTmp = d
+		}
+	})
+	return smtTmp
+}
+
+func cleanupSmtTmp() {
+	if smtTmp != "" {
+		os.RemoveAll(smtTmp)
+	}
 }
